@@ -46,7 +46,7 @@ type faultIn struct {
 	Down      bool   `json:"down,omitempty"`       // midopen/outopen: open a downstream
 	Refuse    int    `json:"refuse,omitempty"`     // pos=refuse: ordinal of the stream whose resume is refused
 	Conflicts int    `json:"conflicts,omitempty"`  // pos=conflict: the broker answers the first n resume requests of every stream on the new incarnation with RESUME_REQUEST_CONFLICT and accepts the next
-	RedialMs int `json:"redial_ms,omitempty"` // every dial attempt of the redial takes that long (an outage longer than a stream's expiry interval)
+	RedialMs  int    `json:"redial_ms,omitempty"`  // every dial attempt of the redial takes that long (an outage longer than a stream's expiry interval)
 	Late      bool   `json:"late,omitempty"`       // out*: the request is issued 25 ms after the loss, while reconnect() is already redialling (slow redial)
 	OpenAfter bool   `json:"open_after,omitempty"` // after the recovery a downstream and an upstream are opened on the healthy connection
 }
@@ -858,6 +858,10 @@ type result struct {
 
 func runCase(c *caseIn) (res result) {
 	r := &runner{cb: connbroker.New(), rets: map[int]int{}, lastEv: time.Now(), closedBefore: map[int]bool{}, excused: map[int]bool{}}
+	r.shortExpiry = map[int]bool{}
+	for _, o := range c.ShortExpiry {
+		r.shortExpiry[o] = true
+	}
 	defer r.cb.Release()
 	done := make(chan error, 1)
 	go func() {
